@@ -194,7 +194,7 @@ PROPS["C17"] = dict(
     shards=backup_shards,
     trusted=BASE_TRUST + ["testing/synctest virtual time; the AWS SDK v2 below HTTPClient.Do (a real s3.Client talks to an in-memory endpoint); os.ReadFile of a file only ever replaced by rename (C04)",
                           "server/verif_hooks.go (build tag verif): runs the unexported loop for a given *db.DB, *s3.Client and bucket"],
-    assumptions=["a busy loop freezes virtual time: a history that does not finish within 8 s of real time is reported as 'spins'"],
+    assumptions=["a busy loop freezes virtual time: a history that does not finish within 45 s of real time is reported as 'spins'"],
     rule=("the periodic backup task under virtual time: timelines of 0-12 database writes with bursts (7 ms apart) and idle stretches (up to 6.7 min), upload outcome scripts with failures, "
           "upload latency {0, 250 ms, 5 s}, optionally a write performed by the S3 endpoint while an upload is in flight, cancellation 0.5 s .. 10 min after the last write; observed: "
           "every upload (virtual time, body hash, db.Open of the body), every file version that existed, exit time; a case is (#writes, #uploads, #failures, race?, latency)"),
